@@ -623,16 +623,16 @@ theorem keysOK_releaseFailed (cache : List (Nat × Int)) :
       | error e => exact k2
       | ok _ => exact ih (some u) m3 k2
 
-theorem keysOK_releaseLoop (cache : List (Nat × Int)) :
+theorem keysOK_checkLoop (cache : List (Nat × Int)) :
     ∀ (l : List (Nat × Int)) (prev : Option Int) (m : Mgr), KeysOK m →
-      KeysOK (releaseLoop false cache l prev m).2.2 := by
+      KeysOK (checkLoop false cache l prev m).2.2 := by
   intro l
   induction l with
   | nil => intro prev m h; exact h
   | cons p rest ih =>
     intro prev m h
     obtain ⟨k, v⟩ := p
-    unfold releaseLoop
+    unfold checkLoop
     have k1 := ksm_nodeFromInt cache (k : Int) m h
     generalize nodeFromInt cache (k : Int) m = r1 at k1 ⊢
     obtain ⟨x1, m1⟩ := r1
@@ -643,15 +643,13 @@ theorem keysOK_releaseLoop (cache : List (Nat × Int)) :
       have hb : KSM (do
           let c ← refOf u
           M.assert (2 ≤ c)
-          if false = true then M.assert (3 ≤ c)
-          decref u : M Unit) := by
+          if false = true then M.assert (3 ≤ c) : M Unit) := by
         repeat' ksm_step
       have k2 := hb _ (keysOK_dropOpt prev m1 k1)
       generalize (do
           let c ← refOf u
           M.assert (2 ≤ c)
-          if false = true then M.assert (3 ≤ c)
-          decref u : M Unit) (dropOpt prev m1) = r2 at k2 ⊢
+          if false = true then M.assert (3 ≤ c) : M Unit) (dropOpt prev m1) = r2 at k2 ⊢
       obtain ⟨x2, m3⟩ := r2
       cases x2 with
       | error e => exact k2
@@ -664,7 +662,7 @@ theorem ksm_jsonHeader_false (f : JsonFile) : KSM (jsonHeader f false) := by
   simp only [Bool.false_eq_true, if_false]
   exact ksm_pure _
 
-theorem keysOK_jsonTry (f : JsonFile) (m : Mgr) (h : KeysOK m) : KeysOK (jsonTry f false m).2.2 := by
+theorem keysOK_jsonTry (f : JsonFile) (m : Mgr) (h : KeysOK m) : KeysOK (jsonTry f false m).2.2.2 := by
   unfold jsonTry
   dsimp only
   have k1 := ksm_jsonHeader_false f m h
@@ -686,24 +684,34 @@ theorem keysOK_jsonTry (f : JsonFile) (m : Mgr) (h : KeysOK m) : KeysOK (jsonTry
       have k3 := ksm_jsonRoots f cache m2 k2
       generalize jsonRoots f cache m2 = r3 at k3 ⊢
       obtain ⟨x3, m3⟩ := r3
-      cases x3 <;> exact k3
+      cases x3 with
+      | error e => exact k3
+      | ok us =>
+        dsimp only
+        have k4 := keysOK_checkLoop cache cache none m3 k3
+        generalize checkLoop false cache cache none m3 = r4 at k4 ⊢
+        obtain ⟨x4, last, m4⟩ := r4
+        cases x4 with
+        | error e => exact keysOK_dropList us m4 k4
+        | ok _ => exact k4
 
-theorem keysOK_jsonFinish (f : JsonFile) (x : Except Err (List Int) × List (Nat × Int) × Mgr)
-    (h : KeysOK x.2.2) : KeysOK (jsonFinish f false x).2 := by
-  obtain ⟨r, cache, m⟩ := x
+theorem keysOK_jsonFinish (f : JsonFile)
+    (x : Except Err (List Int) × List (Nat × Int) × Option Int × Mgr)
+    (h : KeysOK x.2.2.2) : KeysOK (jsonFinish f false x).2 := by
+  obtain ⟨r, cache, prev, m⟩ := x
   cases r with
   | error e =>
     unfold jsonFinish
     dsimp only
-    have k1 := keysOK_releaseFailed cache cache none m h
-    generalize releaseFailed cache cache none m = r1 at k1 ⊢
+    have k1 := keysOK_releaseFailed cache cache prev m h
+    generalize releaseFailed cache cache prev m = r1 at k1 ⊢
     obtain ⟨x1, last, m2⟩ := r1
     cases x1 <;> exact keysOK_dropOpt last m2 k1
   | ok us =>
     unfold jsonFinish
     dsimp only
-    have k1 := keysOK_releaseLoop cache cache none m h
-    generalize releaseLoop false cache cache none m = r1 at k1 ⊢
+    have k1 := keysOK_releaseFailed cache cache prev m h
+    generalize releaseFailed cache cache prev m = r1 at k1 ⊢
     obtain ⟨x1, last, m1⟩ := r1
     dsimp only at k1 ⊢
     split
